@@ -83,18 +83,21 @@ def echoesPeerCode (e : Ev) (h : List Ev) : Bool :=
     else true
   | _ => true
 
-/-- at every step boundary: once the peer's close frame has been received our close frame is on the wire and
-the transport is down; once the closing timeout has elapsed the transport is down. -/
-def teardown (e : Ev) (h : List Ev) : Bool :=
-  if isOp e then
-    (if neverBlocked h then
-       match peerOf h with
-       | .got _ _ _ => h.any isStreamClosed
-       | _ => true
-     else true)
-    && (!h.any isCloseDue || h.any isStreamClosed)
+/-- at every step boundary: once the peer's close frame has been received (and we have answered, see
+`bothClosedSendsClose`) the transport is down -/
+def teardownBothClosed (e : Ev) (h : List Ev) : Bool :=
+  if isOp e && neverBlocked h then
+    match peerOf h with
+    | .got _ _ _ => h.any isStreamClosed
+    | _ => true
   else true
 
+/-- at every step boundary: once the closing timeout has elapsed the transport is down -/
+def teardownTimeout (e : Ev) (h : List Ev) : Bool :=
+  if isOp e then !h.any isCloseDue || h.any isStreamClosed else true
+
+/-- at every step boundary: once the peer's (well-formed) close frame has been received our close frame is on
+the wire -/
 def bothClosedSendsClose (e : Ev) (h : List Ev) : Bool :=
   if isOp e && neverBlocked h then
     match peerOf h with
@@ -133,7 +136,7 @@ def writeAfterCloseFails (e : Ev) (h : List Ev) : Bool :=
 
 def clauses : List (String × (Ev → List Ev → Bool)) :=
   [("oneCloseFrame", oneCloseFrame), ("noDataAfterClose", noDataAfterClose), ("echoesPeerCode", echoesPeerCode),
-   ("teardown", teardown), ("bothClosedSendsClose", bothClosedSendsClose), ("notifyOnce", notifyOnce),
+   ("teardownBothClosed", teardownBothClosed), ("teardownTimeout", teardownTimeout), ("bothClosedSendsClose", bothClosedSendsClose), ("notifyOnce", notifyOnce),
    ("notifyWhenDown", notifyWhenDown), ("notifyCarriesPeerClose", notifyCarriesPeerClose),
    ("writeAfterCloseFails", writeAfterCloseFails)]
 
